@@ -37,7 +37,7 @@ UBDEF = ("the machine's catalogue of UB kinds is the definition of memory unsafe
          "optimiser-dependent manifestations of UB are not modelled")
 
 prop("C01", title="operation sequences behave like std Vec", equiv=["EquivElem.push_equiv", "EquivPop.pop_equiv", "EquivInsert.insert_equiv", "EquivRemove.remove_equiv", "EquivSwapRemove.swap_remove_equiv", "EquivElem.truncate_equiv", "EquivElem.clear_equiv", "EquivElem.set_len_equiv", "EquivAppend.append_equiv", "EquivAppend.is_empty_equiv", "EquivResize.loop_equivR", "EquivResize.resize_equiv", "EquivResizeWith.loop_equivW", "EquivResizeWith.resize_with_equiv", "EquivExtend.loop_equivE", "EquivExtend.extend_equiv", "EquivExtend.loop_equivFI", "EquivExtend.from_iter_equiv"], trusted=[HAND, EXTR, "std::vec::Vec as the oracle of the list-level spec (three-way run)"])
-prop("C02", title="exactly-once ownership", equiv=["EquivDrain.into_drop_equiv", "EquivDropGuard.loop_equivG", "EquivDropGuard.dropguard_drop_equiv", "EquivDropGuard.loop_equivDD", "EquivDropGuard.drain_drop_body_equiv"], trusted=[HAND, EXTR, UBDEF])
+prop("C02", title="exactly-once ownership", equiv=["EquivDrain.into_drop_equiv", "EquivDropGuard.loop_equivG", "EquivDropGuard.dropguard_drop_equiv", "EquivDropGuard.loop_equivDD", "EquivDropGuard.drain_drop_body_equiv", "EquivDropGuard.loop_equivSP", "EquivDropGuard.splice_drop_body_equiv"], trusted=[HAND, EXTR, UBDEF])
 prop("C03", title="allocator contract", equiv=["EquivGrow.grow_equiv", "EquivDrop.drop_equiv"], trusted=[HAND, EXTR, UBDEF, "the GlobalAlloc contract as written in Machine.do_realloc/do_dealloc"])
 prop("C04", title="panic safety", equiv=["EquivDrain.filter_guard_equiv"], trusted=[HAND, EXTR, UBDEF])
 prop("C05", title="forget safety", equiv=["EquivDrain.drain_filter_equiv"], trusted=[HAND, EXTR, UBDEF])
